@@ -245,6 +245,115 @@ func hostileSession(rng *rand.Rand, n int, dotu bool) [][]byte {
 	return out
 }
 
+// structured: a boundary grid (every count x offset class against one fid state, pipelined in bursts) or an
+// msize ladder (Tversion again and again with small and large msize, each followed by a burst of short requests).
+// Frames longer than the msize in force are not sent (announced oversize frames are the vectors' business).
+func (h *hostileServer) structured(ch *ConnH, rng *rand.Rand, ladder bool, j int, dotu bool) string {
+	h.handshake(ch, 8192, dotu)
+	h.rpc(ch, &wire.Msg{Type: wire.Tattach, Fid: 1, Afid: wire.NOFID, Uname: "root"}, dotu)
+	h.rpc(ch, &wire.Msg{Type: wire.Twalk, Fid: 1, Newfid: 2, Wname: []string{"d"}}, dotu)
+	h.rpc(ch, &wire.Msg{Type: wire.Topen, Fid: 2, Mode: 0}, dotu)
+	h.rpc(ch, &wire.Msg{Type: wire.Twalk, Fid: 1, Newfid: 3, Wname: []string{"f"}}, dotu)
+	h.rpc(ch, &wire.Msg{Type: wire.Topen, Fid: 3, Mode: 2}, dotu)
+	h.rpc(ch, &wire.Msg{Type: wire.Twalk, Fid: 1, Newfid: 4, Wname: []string{"f"}}, dotu)
+	if rng.Intn(2) == 0 {
+		h.rpc(ch, &wire.Msg{Type: wire.Tread, Fid: 2, Offset: 0, Count: 4096}, dotu)
+	}
+	eff := uint32(8192)
+	tag := uint16(100)
+	burst := 0
+	send := func(m *wire.Msg) {
+		tag++
+		m.Tag = tag
+		b := wire.Encode(m, dotu)
+		if uint32(len(b)) > eff {
+			return
+		}
+		select {
+		case ch.wq <- b:
+		default:
+			h.drain(ch)
+			select {
+			case ch.wq <- b:
+			default:
+			}
+		}
+		burst++
+		if burst%(4+rng.Intn(12)) == 0 {
+			h.drain(ch)
+		}
+	}
+	version := func(m uint32) {
+		ver := "9P2000"
+		if dotu {
+			ver = "9P2000.u"
+		}
+		h.drain(ch)
+		// (after a drain a reader goroutine is pending on the connection: replies are only drained from here on)
+		select {
+		case ch.wq <- wire.Encode(&wire.Msg{Type: wire.Tversion, Tag: wire.NOTAG, Msize: m, Version: ver}, false):
+		default:
+		}
+		h.drain(ch)
+		if m >= 24 && m < eff {
+			eff = m
+		}
+	}
+	fids := []uint32{1, 2, 3, 4, 5, wire.NOFID}
+	if !ladder {
+		msizes := []uint32{0, 24, 25, 47, 64, 256, 8192, 9000, 0xFFFFFFFF}
+		if m := msizes[j%len(msizes)]; m != 0 {
+			version(m)
+		}
+		fid := fids[(j/len(msizes))%len(fids)]
+		counts := []uint32{0, 1, eff - 25, eff - 24, eff - 23, eff - 1, eff, eff + 1, 1<<31 - 1, 1 << 31, 0xFFFFFFE7, 0xFFFFFFE8, 0xFFFFFFE9,
+			0xFFFFFFFB, 0xFFFFFFFC, 0xFFFFFFFF}
+		offs := []uint64{0, 1, 11, 12, 1 << 31, 1 << 32, 1<<63 - 1, 1 << 63, ^uint64(0)}
+		for _, c := range counts {
+			for _, o := range offs {
+				send(&wire.Msg{Type: wire.Tread, Fid: fid, Offset: o, Count: c})
+			}
+		}
+		for _, n := range []uint32{0, 1, eff - 25, eff - 24, eff - 23} {
+			if n > 8192 {
+				continue
+			}
+			for _, o := range offs {
+				send(&wire.Msg{Type: wire.Twrite, Fid: fid, Offset: o, Data: make([]byte, n)})
+			}
+		}
+		h.drain(ch)
+		return fmt.Sprintf("grid session (fid %d, msize %d)", fid, eff)
+	}
+	ladderM := []uint32{24, 25, 32, 47, 64, 128, 256, 8000, 8192, 100000, 23}
+	var steps []uint32
+	for r := 0; r < 2+rng.Intn(3); r++ {
+		m := ladderM[rng.Intn(len(ladderM))]
+		steps = append(steps, m)
+		version(m)
+		for q := 0; q < 6+rng.Intn(20); q++ {
+			fid := fids[rng.Intn(len(fids))]
+			switch rng.Intn(8) {
+			case 0, 1, 2:
+				send(&wire.Msg{Type: wire.Tread, Fid: fid, Offset: []uint64{0, 0, 1, 100, 5000}[rng.Intn(5)],
+					Count: []uint32{0, 1, eff - 24, eff - 23, 200, 4096, 8168}[rng.Intn(7)]})
+			case 3:
+				send(&wire.Msg{Type: wire.Tstat, Fid: fid})
+			case 4:
+				send(&wire.Msg{Type: wire.Twalk, Fid: fid, Newfid: fids[rng.Intn(len(fids))]})
+			case 5:
+				send(&wire.Msg{Type: wire.Topen, Fid: fid, Mode: uint8(rng.Intn(4))})
+			case 6:
+				send(&wire.Msg{Type: wire.Tclunk, Fid: []uint32{5, 6, wire.NOFID}[rng.Intn(3)]})
+			case 7:
+				send(&wire.Msg{Type: wire.Tflush, Oldtag: tag - uint16(rng.Intn(3))})
+			}
+		}
+	}
+	h.drain(ch)
+	return fmt.Sprintf("ladder session (msize %v)", steps)
+}
+
 func mkTree(root string) {
 	_ = os.MkdirAll(filepath.Join(root, "d", "e"), 0o755)
 	_ = os.WriteFile(filepath.Join(root, "f"), []byte("hello world"), 0o644)
@@ -259,6 +368,7 @@ func mkTree(root string) {
 // The oracle is survival: the process does not panic (a panic kills this test binary; the driver
 // attributes it through the progress file), new connections are served, the bystander still answers.
 func TestHostile(t *testing.T) {
+	StartWatchdog()
 	useUfs := os.Getenv("VERIF_UFS") == "1"
 	seed := int64(envInt("VERIF_SEED", 1))
 	nsess := envInt("VERIF_SESSIONS", 200)
@@ -280,7 +390,7 @@ func TestHostile(t *testing.T) {
 		mkTree(root)
 		defer os.RemoveAll(root)
 	}
-	total := len(frames) + 3*nsess
+	total := len(frames) + 5*nsess
 	const batch = 100
 	for start := 0; start < total; start += batch {
 		end := start + batch
@@ -291,7 +401,12 @@ func TestHostile(t *testing.T) {
 			continue
 		}
 		func() {
-			defer func() { recover() }()
+			defer func() {
+				if r := recover(); r != nil {
+					// the bubble ended abnormally (a panic on this goroutine is the harness's own): never silent
+					rep.Inconclusive = append(rep.Inconclusive, fmt.Sprintf("batch %d..%d ended abnormally: %v", start+1, end, r))
+				}
+			}()
 			synctest.Test(t, func(t *testing.T) {
 				h := startHostile(t, lg, useUfs, root)
 				defer func() { go9p.VerifHook = nil }()
@@ -314,8 +429,12 @@ func TestHostile(t *testing.T) {
 						}
 						h.c.SendRaw(ch, fc.Bytes, nil)
 					default:
-						k := (i - len(frames)) % 3
+						k := (i - len(frames)) % 5
 						dotu := crng.Intn(2) == 0
+						if k >= 3 {
+							desc = h.structured(ch, crng, k == 4, (i-len(frames))/5, dotu)
+							break
+						}
 						msize := []uint32{24, 25, 64, 128, 8192}[crng.Intn(5)]
 						if crng.Intn(4) > 0 {
 							h.handshake(ch, msize, dotu)
@@ -387,7 +506,7 @@ func TestHostile(t *testing.T) {
 	out.Close()
 	rep.Distinct = rep.Cases
 	rep.Stats["frames"] = len(frames)
-	rep.Stats["sessions"] = 3 * nsess
+	rep.Stats["sessions"] = 5 * nsess
 	if err := rep.Write(); err != nil {
 		t.Fatal(err)
 	}
